@@ -125,13 +125,16 @@ C10Viol(e) ==
 NErr(res) == Cardinality({i \in 1..Len(res) : res[i] \notin {"ok", "pending", "notsent"}})
 C14Viol(e) ==
   LET what == "message=" \o e.c.tmpl \o " mutation=" \o e.c.op IN
-  IF Has(e, "panic") THEN {V("Panic", what, e)}
+  IF Has(e, "hang") THEN {V("CallNeverResolves", what \o " (the thread polling the call never came back)", e)}
+  ELSE IF Has(e, "panic") THEN {V("Panic", what, e)}
   ELSE IF Has(e, "hello") THEN (IF e.hello = "hang" THEN {V("HelloNeverResolves", what, e)} ELSE {})
   ELSE IF \E i \in 1..Len(e.res) : e.res[i] = "pending" THEN {V("CallNeverResolves", what, e)}
   ELSE IF e.gid = 2 /\ (e.res[1] # "ok" \/ e.res[3] # "ok")
        THEN {V("OtherRequestsDisturbed", what \o " (header names its own request)", e)}
   ELSE IF e.gid = -1 /\ NErr(e.res) > 1
        THEN {V("OtherRequestsDisturbed", what \o " (unattributable garbage failed more than one call)", e)}
+  ELSE IF e.gid = 900 /\ NErr(e.res) > 1
+       THEN {V("OtherRequestsDisturbed", what \o " (a reply to a request nobody made failed more than one call)", e)}
   ELSE {}
 
 ---------------------------------------------------------------------------
